@@ -758,7 +758,7 @@ def reply_method_src(r):
     else:
         for k, t in enumerate(r.payload):
             params.append("p%d: %s" % (k, t))
-            body.append("o.args[%d] = p%d as u64;" % (8 + k, k))
+            body.append(("o.args[%d] = p%d.len() as u64;" if t == "Binary" else "o.args[%d] = p%d as u64;") % (8 + k, k))
     body.append("Err(Echo::H(o))")
     return "    %s\n    fn %s(&self, ctx: ReplyCtx%s) -> Result<Response, Echo> {\n            %s\n    }" % (
         attr, r.name, "".join(", " + p for p in params), "\n            ".join(body))
@@ -872,7 +872,9 @@ def submsg_harness(fx, e, receiver, hname, props, tier):
     lines = ["        let pb: [u8; 2] = kani::any();"]
     if receiver == "submsg":
         lines.append("        let id0: u64 = kani::any(); let gl: Option<u64> = kani::any();")
-        lines.append("        let base: SubMsg<Empty> = SubMsg { id: id0, payload: Binary::default(), msg: CosmosMsg::Bank(BankMsg::Burn { amount: vec![] }), gas_limit: gl, reply_on: ReplyOn::Never };")
+        # the receiver may already carry any reply trigger (and id): the builder overrides both
+        lines.append("        let ro0 = match kani::any::<u8>() % 4 { 0 => ReplyOn::Always, 1 => ReplyOn::Error, 2 => ReplyOn::Success, _ => ReplyOn::Never };")
+        lines.append("        let base: SubMsg<Empty> = SubMsg { id: id0, payload: Binary::default(), msg: CosmosMsg::Bank(BankMsg::Burn { amount: vec![] }), gas_limit: gl, reply_on: ro0 };")
         keep = "CosmosMsg::Bank(BankMsg::Burn { amount })"
         gas = "sub.gas_limit == gl"
     elif receiver == "wasm":
@@ -955,6 +957,18 @@ def typed_submsg_harness(fx, e, hname, props, tier):
     tuple of arguments (several), values < 10.  The decode half (from_json in dispatch_reply) is out of reach."""
     n = len(e["payload"])
     on = "Always" if (e["always"] or (e["succ"] and e["err"])) else ("Success" if e["succ"] else "Error")
+    if e["payload"] == ["Binary"]:
+        # a single typed (NOT raw-marked) Binary is still JSON-encoded: a quoted base64 string
+        lines = ["        let b: u8 = kani::any();", "        let base = WasmMsg::ClearAdmin { contract_addr: String::new() };",
+                 "        let r: StdResult<SubMsg<Empty>> = sv::SubMsgMethods::<Empty>::%s(base, Binary::new(vec![b]));" % e["name"],
+                 "        let r = core::mem::ManuallyDrop::new(r);", "        match &*r {", "            Ok(sub) => {",
+                 "                assert!(sub.id == sv::%s_REPLY_ID && matches!(sub.reply_on, ReplyOn::%s));" % (e["name"].upper(), on),
+                 "                let p = sub.payload.as_slice();",
+                 "                assert!(p.len() == 6 && p[0] == b'\"' && p[5] == b'\"' && p[3] == b'=' && p[4] == b'=');",
+                 "            }", "            Err(_) => assert!(false),", "        }", "        kani::cover!(true, \"end of harness reachable\");"]
+        body = "\n    #[kani::proof]\n    #[kani::unwind(30)]\n    %s\n    fn %s() {\n%s\n    }\n" % (STUBS, hname, "\n".join(lines))
+        reg(hname, fx["feature"], props, tier, "SubMsgMethods::%s with one typed (not raw-marked) Binary payload: the payload is JSON-encoded (a quoted base64 string), not passed raw" % e["name"], fx["mod"])
+        return body
     vals = ["v%d" % k for k in range(n)]
     lines = ["        " + " ".join("let %s: u8 = kani::any(); kani::assume(%s < 10);" % (v, v) for v in vals)]
     lines.append("        let base = WasmMsg::ClearAdmin { contract_addr: String::new() };")
@@ -1085,6 +1099,8 @@ def fx_reply(perm=False):
 
 def fx_reply_typed():
     # typed (JSON) payloads: only type-level and builder-side obligations are in reach (from_json is not)
+    # (a third handler with one typed, not raw-marked `Binary` payload was tried: the builder harness has to run the
+    # base64 encoder of Binary's Serialize and CBMC does not finish in 900 s; that payload signature is uncovered)
     rs = [R("typed_one", "success", payload=["u64"]), R("typed_two", "error", payload=["u64", "u32"])]
     rs[0].h, rs[1].h = 1, 2
     return dict(mod="fx_reply_typed", feature="g_reply", contract="ReplyT", replies=rs, tier="quick", dispatch=False)
@@ -1227,7 +1243,7 @@ def ep_fixtures():
     add("all", list(EP_KINDS), "quick")
     add("instantiate", ["instantiate"], "thorough")
     add("sudo", ["sudo"], "thorough")
-    add("reply", ["reply"], "thorough")
+    add("reply", ["reply"], "quick")
     add("plain", [], "quick", migrate=False, reply=False)
     add("exec_sudo", ["exec", "sudo"], "thorough")
     # thorough only, own feature group: every PAIR of overridden kinds, and a few larger subsets
